@@ -469,6 +469,8 @@ def r_raw_argument_after_normalisation(P, rep, ctx, rule: str, modules):
             bad = []
             for m in after:
                 nd = g.nodes[m]
+                if nd.kind == "stmt" and isinstance(nd.stmt, ast.Raise):
+                    continue  # naming the raw argument in an error message is not consulting it
                 for e in nd.exprs:
                     if e is None or m == site:
                         continue
